@@ -34,6 +34,10 @@ pub struct GItem {
     pub leading: Vec<String>,
     pub node: GE,
     pub trailing: Option<String>,
+    /// comments on their own lines after this item (honoured for the last item of a list)
+    pub after: Vec<String>,
+    /// for the last item: no comma, so the trailing comment is the item's own end-of-line comment
+    pub no_comma: bool,
 }
 
 #[derive(Clone, Debug)]
@@ -51,6 +55,8 @@ pub struct GEntry {
     pub key: GKey,
     pub value: GE,
     pub trailing: Option<String>,
+    pub after: Vec<String>,
+    pub no_comma: bool,
 }
 
 pub const BINOPS: [&str; 26] = [
@@ -139,7 +145,7 @@ pub fn gen_expr(rng: &mut Rng, cfg: &GenCfg, depth: usize) -> GE {
             let mut items = vec![];
             for _ in 0..n {
                 let node = if rng.chance(1, 6) { GE::Spread(Box::new(gen_expr(rng, cfg, d))) } else { gen_expr(rng, cfg, d) };
-                items.push(GItem { leading: leading(rng, cfg), node, trailing: maybe_comment(rng, cfg, (1, 5)) });
+                items.push(GItem { leading: leading(rng, cfg), node, trailing: maybe_comment(rng, cfg, (1, 5)), after: leading(rng, cfg), no_comma: rng.chance(1, 2) });
             }
             GE::List(items)
         }
@@ -155,7 +161,7 @@ pub fn gen_expr(rng: &mut Rng, cfg: &GenCfg, depth: usize) -> GE {
                     6 => GKey::Spread(gen_expr(rng, cfg, d)),
                     _ => GKey::Static(ident(rng)),
                 };
-                es.push(GEntry { leading: leading(rng, cfg), key, value: gen_expr(rng, cfg, d), trailing: maybe_comment(rng, cfg, (1, 5)) });
+                es.push(GEntry { leading: leading(rng, cfg), key, value: gen_expr(rng, cfg, d), trailing: maybe_comment(rng, cfg, (1, 5)), after: leading(rng, cfg), no_comma: rng.chance(1, 2) });
             }
             GE::Record(es)
         }
@@ -175,7 +181,7 @@ pub fn gen_expr(rng: &mut Rng, cfg: &GenCfg, depth: usize) -> GE {
             let mut stmts = vec![];
             for _ in 0..n {
                 let node = if rng.chance(2, 3) { GE::Assign(ident(rng), Box::new(gen_expr(rng, cfg, d))) } else { gen_expr(rng, cfg, d) };
-                stmts.push(GItem { leading: leading(rng, cfg), node, trailing: maybe_comment(rng, cfg, (1, 4)) });
+                stmts.push(GItem { leading: leading(rng, cfg), node, trailing: maybe_comment(rng, cfg, (1, 4)), after: vec![], no_comma: false });
             }
             GE::Do(stmts, Box::new(gen_expr(rng, cfg, d)), leading(rng, cfg))
         }
@@ -215,15 +221,22 @@ pub fn to_source(e: &GE, indent: usize) -> String {
         GE::InRef(s) => format!("#{}", s),
         GE::BuiltIn(s) => s.clone(),
         GE::List(items) => {
-            if items.iter().any(|i| !i.leading.is_empty() || i.trailing.is_some()) {
+            if items.iter().any(|i| !i.leading.is_empty() || i.trailing.is_some()) || items.last().map_or(false, |i| !i.after.is_empty()) {
                 let mut s = String::from("[");
-                for it in items {
+                for (k, it) in items.iter().enumerate() {
+                    let last = k + 1 == items.len();
                     for c in &it.leading {
                         s.push_str(&format!("\n{}{}", pad(indent + 2), c));
                     }
-                    s.push_str(&format!("\n{}{},", pad(indent + 2), item_src(&it.node, indent + 2)));
+                    let comma = if last && it.no_comma { "" } else { "," };
+                    s.push_str(&format!("\n{}{}{}", pad(indent + 2), item_src(&it.node, indent + 2), comma));
                     if let Some(t) = &it.trailing {
                         s.push_str(&format!(" {}", t));
+                    }
+                    if last {
+                        for c in &it.after {
+                            s.push_str(&format!("\n{}{}", pad(indent + 2), c));
+                        }
                     }
                 }
                 s.push_str(&format!("\n{}]", pad(indent)));
@@ -242,15 +255,22 @@ pub fn to_source(e: &GE, indent: usize) -> String {
                     GKey::Spread(x) => format!("...{}", to_source(x, ind)),
                 }
             };
-            if es.iter().any(|i| !i.leading.is_empty() || i.trailing.is_some()) {
+            if es.iter().any(|i| !i.leading.is_empty() || i.trailing.is_some()) || es.last().map_or(false, |i| !i.after.is_empty()) {
                 let mut s = String::from("{");
-                for en in es {
+                for (k, en) in es.iter().enumerate() {
+                    let last = k + 1 == es.len();
                     for c in &en.leading {
                         s.push_str(&format!("\n{}{}", pad(indent + 2), c));
                     }
-                    s.push_str(&format!("\n{}{},", pad(indent + 2), ent(en, indent + 2)));
+                    let comma = if last && en.no_comma { "" } else { "," };
+                    s.push_str(&format!("\n{}{}{}", pad(indent + 2), ent(en, indent + 2), comma));
                     if let Some(t) = &en.trailing {
                         s.push_str(&format!(" {}", t));
+                    }
+                    if last {
+                        for c in &en.after {
+                            s.push_str(&format!("\n{}{}", pad(indent + 2), c));
+                        }
                     }
                 }
                 s.push_str(&format!("\n{}}}", pad(indent)));
@@ -559,7 +579,14 @@ pub fn lay(e: &GE, rng: &mut Rng) -> String {
                 s.push(')');
                 s
             };
-            format!("{}{}=>{}{}", a, pickws(rng, WS_SPACES0), pickws(rng, WS_ANY), lay_operand(body, rng))
+            // an unparenthesised body is legal unless its top-level chain has via/into/where
+            let bare_ok = match &**body {
+                GE::Bin(op, _, _) => !matches!(*op, "via" | "into" | "where"),
+                GE::Neg(_) | GE::Not(_, _) | GE::Fact(_) | GE::Call(_, _) | GE::Access(_, _) | GE::Dot(_, _) => true,
+                _ => false,
+            };
+            let b = if bare_ok && rng.chance(2, 3) { lay(body, rng) } else { lay_operand(body, rng) };
+            format!("{}{}=>{}{}", a, pickws(rng, WS_SPACES0), pickws(rng, WS_ANY), b)
         }
         GE::Cond(c, t, e2) => format!(
             "if{}{}{}then{}{}{}else{}{}",
